@@ -1,0 +1,16 @@
+//! Re-exports of crate-private items for the external verification harness.
+//!
+//! Compiled only with the cargo feature `verif-hooks`; nothing here changes behaviour.
+
+pub use crate::commit::verif::{finalize_parent_lines, resolve_canonical_mark};
+pub use crate::commit::{
+    build_alias, parse_from_mark, parse_mark_number, rename_commit_header_ref,
+    rewrite_author_line, rewrite_email_line, rewrite_mailmap_line, should_keep_commit,
+    AuthorRewriter, MailmapRewriter,
+};
+pub use crate::filechange::{handle_file_change_line, HandleFileChangeOutcome};
+pub use crate::limits::parse_data_size_header;
+pub use crate::message::{
+    blob_regex, find_subslice, msg_regex, replace_all_bytes, MessageReplacer, ShortHashMapper,
+};
+pub use crate::stream::verif::{rewrite_timestamp_line, strip_sha_lookup};
